@@ -14,6 +14,8 @@
 
 use std::{collections::HashMap, fmt};
 
+use fixedbitset::FixedBitSet;
+
 pub use crate::{
     decoder_result::{DecoderResult, RestoredOriginal},
     encoder_result::{EncoderResult, Recovery},
@@ -316,8 +318,35 @@ where
         (first_recovery.1.as_ref().len(), first_recovery)
     } else {
         // NO RECOVERY SHARDS
+        //
+        // Shard size is inferred from the first original shard and the given
+        // original shards are validated exactly like `ReedSolomonDecoder` would,
+        // but without allocating any working space.
 
-        let original_received_count = original.count();
+        let mut received = FixedBitSet::with_capacity(original_count);
+        let mut inferred_shard_bytes = None;
+
+        for (index, original) in original {
+            let got = original.as_ref().len();
+            let shard_bytes = *inferred_shard_bytes.get_or_insert(got);
+
+            if shard_bytes == 0 || shard_bytes & 1 != 0 {
+                return Err(Error::InvalidShardSize { shard_bytes });
+            } else if index >= original_count {
+                return Err(Error::InvalidOriginalShardIndex {
+                    original_count,
+                    index,
+                });
+            } else if received[index] {
+                return Err(Error::DuplicateOriginalShardIndex { index });
+            } else if got != shard_bytes {
+                return Err(Error::DifferentShardSize { shard_bytes, got });
+            }
+
+            received.insert(index);
+        }
+
+        let original_received_count = received.count_ones(..);
         if original_received_count == original_count {
             // Nothing to do, original data is complete.
             return Ok(HashMap::new());
